@@ -506,7 +506,19 @@ def apply_fault_sequence(rng, ctx, enabled, max_faults):
 def synth_not_bytecode(rng, magics):
     """An input that never was a .pyc. Returns (bytes, descriptor)."""
     kind = rng.choice(["empty", "short", "text", "elf", "zip", "gzip", "random", "magic+random", "magic+zeros",
-                       "magic+pattern", "source", "magic+marshalish"])
+                       "magic+pattern", "source", "magic+marshalish", "dropbox_like"])
+    if kind == "dropbox_like":
+        # the encrypted-code layout of the dropbox loader: 'c', two key words (the second is also the byte count),
+        # then the (here: random) cipher text; sizes 0, 1, odd, huge and negative
+        b = rng.choice([0, 1, 15, 16, 17, 64, 200, 4096, 65536, (1 << 31) - 1, -1, -16, rng.between(1, 600)])
+        pad = (b + 15) & ~0xF
+        body = rng.bytes(max(0, min(pad if pad > 0 else 0, 2000)) + rng.choice([0, 0, 1, 7]))
+        data = struct.pack("<H", 62135) + rng.choice([b"\r\n", b"\r\n", rng.bytes(2)]) + rng.bytes(4) + \
+            rng.choice([b"c", b"c", b"(\x01\x00\x00\x00c", b"[\x02\x00\x00\x00c"]) + \
+            struct.pack("<i", rng.bits(32) - (1 << 31)) + struct.pack("<i", b) + body
+        if len(data) < 50 and rng.chance(3, 4):
+            data += b"N" * (50 - len(data))
+        return data, {"kind": "not_bytecode", "what": kind, "magic": 62135, "len": len(data), "count": b}
     if kind == "empty":
         b = b""
     elif kind == "short":
